@@ -21,6 +21,19 @@
 #define VERIF_OP 0
 #endif
 
+/* snprintf (vm_string_from_int/float): assumed contract - returns the number of characters written,
+ * 0 <= r < n (the VM's formats "%lld" / "%g" never exceed their 32/64-byte buffers), destination NUL-terminated.
+ * (A variadic stub body is fine here: step harnesses are not DFCC-instrumented.) */
+int snprintf(char *s, size_t n, const char *fmt, ...)
+{
+    (void)fmt;
+    __CPROVER_assert(n == 0 || __CPROVER_w_ok(s, n), "libc: snprintf destination valid for n bytes");
+    int r = nondet_int();
+    __CPROVER_assume(r >= 0 && (size_t)r < n && r <= 24);
+    if (n) s[r] = 0;
+    return r;
+}
+
 #include "nanovm/vm.c"   /* the real code, verbatim */
 
 struct verif_ghost __verif_g;
@@ -67,7 +80,7 @@ static NanoValue mk_leaf(void)
 {
     if (nondet_bool()) return mk_scalar();
     NanoValue v = {0}; v.tag = TAG_STRING;
-    v.as.string = nondet_bool() ? NULL : mk_string();
+    v.as.string = mk_string();   /* VAL_WF: under "allocation succeeds" every constructor of a heap-tagged value yields a live object */
     return v;
 }
 
@@ -111,7 +124,7 @@ static NanoValue mk_value(unsigned mask, uint32_t *len_out)
     *len_out = 0;
     NanoValue v = {0};
     if ((mask & M_SCALAR) && kind == M_SCALAR) return mk_scalar();
-    if ((mask & M_STRING) && kind == M_STRING) { v.tag = TAG_STRING; v.as.string = nondet_bool() ? NULL : mk_string(); return v; }
+    if ((mask & M_STRING) && kind == M_STRING) { v.tag = TAG_STRING; v.as.string = mk_string(); return v; }
     NanoValue leaf = mk_leaf();
     if ((mask & M_ARRAY) && kind == M_ARRAY) {
         v.tag = TAG_ARRAY;
@@ -290,6 +303,28 @@ static void build_state(void)
         if ((K == OP_ARR_GET || K == OP_ARR_REMOVE) && in_v0.tag != TAG_INT) __CPROVER_assume(in_k == 0);
         if (K == OP_ARR_SET && in_v1.tag == TAG_INT) __CPROVER_assume(in_k == (uint32_t)in_v1.as.i64);
         if (K == OP_ARR_SET && in_v1.tag != TAG_INT) __CPROVER_assume(in_k == 0);
+        /* control transfers: keep the harness to ONE step by letting the target land on a HALT byte, i.e. anywhere in the
+           function except the instruction's own bytes (a jump to itself re-runs the same step; its post-state differs only
+           in the value stored in vm->ip, which VM_IP_OK covers) */
+        if (K == OP_JMP || K == OP_JMP_TRUE || K == OP_JMP_FALSE || K == OP_MATCH_TAG) {
+            int o = (K == OP_MATCH_TAG) ? 3 : 1;
+            int64_t tgt = 8 + (int64_t)(int32_t)((uint32_t)in_operand.b[o] | ((uint32_t)in_operand.b[o + 1] << 8) |
+                                               ((uint32_t)in_operand.b[o + 2] << 16) | ((uint32_t)in_operand.b[o + 3] << 24));
+            __CPROVER_assume(tgt < 8 || tgt >= 8 + (int64_t)SPEC_LEN_M(K));
+        }
+#ifdef VERIF_LOCALS_MAX
+        /* calls push (local_count - arity) fresh locals in a loop: capped (bounded stand-in) */
+        __CPROVER_assume(m->functions[0].local_count <= m->functions[0].arity + VERIF_LOCALS_MAX && m->functions[0].arity <= 3);
+        __CPROVER_assume(m->functions[1].local_count <= m->functions[1].arity + VERIF_LOCALS_MAX && m->functions[1].arity <= 3);
+#endif
+#ifdef VERIF_FRAME_DEPTH_MAX
+        /* RET pops every slot of the current frame and releases it: the frame holds at most the materialised slots */
+        __CPROVER_assume(fr->stack_base <= in_stack_size && in_stack_size - fr->stack_base <= VERIF_FRAME_DEPTH_MAX);
+        if (vm->frame_count >= 2) {
+            VmCallFrame *caller = &vm->frames[vm->frame_count - 2];
+            __CPROVER_assume(caller->module == m && caller->fn_idx < 2);
+        }
+#endif
 #ifdef VERIF_COUNT_MAX
         /* handlers that pop `count` operands in a loop: the count operand is capped (bounded stand-in) */
         if (K == OP_ARR_LITERAL) __CPROVER_assume((uint16_t)(in_operand.b[2] | (in_operand.b[3] << 8)) <= VERIF_COUNT_MAX);
